@@ -134,4 +134,35 @@ CLAIMS.update({
              "appends happened)."),
 })
 
+CLAIMS.update({
+    'C05': dict(
+        text="PARTIAL PROOF. Proved in Lean on the byte-level model, for every log content, every batch, every byte count of the batch that reached the "
+             "file and every state of the index file: a cut record never parses (both formats); Recover keeps the records before the batch and "
+             "exactly the whole records of the batch that reached the file, the result passes Check, can be appended to and still passes "
+             "Check, and recovering again changes nothing. Regenerated structural facts (record before index item before in-memory append; "
+             "fsync before rename; old head fsynced before the new segment) are proof obligations. The directory-level statement for the "
+             "rollover / delete-by-rewrite / migrate / recover families is decided by the crash-image correspondence: the FS tap snapshots "
+             "the directory after every file-system mutation of every operation of generated workloads, plus torn appends (every byte in "
+             "thorough) and crashes inside the recovery of sampled images (depth 2); every image is reopened by the real Open(Recover) and "
+             "judged against the L0 relation CrashOK (content = before or after the in-flight op; acknowledged messages kept; NextOffset "
+             "never below an acknowledged one; all views agree; recover-again is a no-op; append + Check passes).",
+        note=COMMON_NOTE + "Partial: the multi-file families are not proved (the model has no crash points between files); they are explored, not "
+             "proved. Crash images are taken at write/rename/remove boundaries with whole-file granularity plus torn appends; sector-level "
+             "reordering inside one write is not modelled. Open known findings (known_findings.json): D6 (rebasing delete), KF-V1-TORN.",
+        technique="Lean 4 theorems over a hand-written byte-level model (recovery of the head for every cut) + regenerated go/ast facts as proof "
+                  "obligations + crash-image correspondence against the real Open(Recover)"),
+    'C06': dict(
+        text="PARTIAL PROOF. Proved in Lean: with a synced prefix of records in the head log and any number of bytes of a later batch surviving, with any "
+             "index content, recovery keeps every synced record and a prefix of the batch. Regenerated facts: Sync fsyncs log then index; the "
+             "old head is fsynced before a new segment is created; rewritten/recovered/migrated files are fsynced before rename. The "
+             "directory-level statement is decided by the loss-image correspondence: the tap tracks the fsynced length of every file "
+             "(renames carry it), after every operation loss images cut files back to lengths between fsynced and current; each is reopened "
+             "with the real Open(Recover) and judged: every live message below the last offset acknowledged by Sync/Close/AutoSync-Publish "
+             "is present and intact, NextOffset is not below it.",
+        note=COMMON_NOTE + "Partial: fault model = tail loss of unsynced appends per file with atomic renames and atomic 8-byte headers (as the "
+             "property states it); directory-entry durability is observed through the dirsync tap, not modelled.",
+        technique="Lean 4 theorems over a hand-written byte-level model + regenerated go/ast facts as proof obligations + loss-image "
+                  "correspondence against the real Open(Recover)"),
+})
+
 NOT_APPLICABLE = []
